@@ -26,10 +26,14 @@ RULE = (
     "optional wrapper {merge(never) op/fn, flat_map(of) / as inner of flat_map, concat prefix/suffix, switch_map(of) / as "
     "inner of switch_map, share, amb(never) op/fn, with_latest_from(of), combine_latest(of, src) / (src, of)} -> "
     "terminator {take(k), first, first(pred), take_while (incl.), element_at, take_until(subject fired synchronously "
-    "at the j-th element / trigger emitting inside subscribe), find, some, contains, is_empty, first_or_default, all} x "
+    "at the j-th element / trigger emitting inside subscribe), find, find_index, some, contains, is_empty, first_or_default, "
+    "all, element_at_or_default, slice / source[a:b], skip+first, skip_last+take, buffer_with_count+first, "
+    "zip_with_iterable(finite)} x "
     "scheduler configuration {default, CurrentThreadScheduler.singleton() | fresh CurrentThreadScheduler() | "
     "ImmediateScheduler() passed to the source factory or to subscribe()}. 'product' enumerates the full product with "
-    "one element-wise sample per cell; 'deep' draws random shapes/parameters. Every producer loop iteration pulls from "
+    "one element-wise sample per cell (wrappers include variants whose partner / inner observable is itself a "
+    "never-ending counted generate()); 'stacked' enumerates all ordered pairs of two wrappers under the default "
+    "scheduler; 'deep' draws random shapes/parameters (optionally two wrappers). Every producer loop iteration pulls from "
     "a counted object (counting iterator, counting generate condition, counting stand-ins for the builtin range and for "
     "internal.utils.infinite inside the library modules); pull number B+1, B = 50*need + 1000 (need = source elements the "
     "terminator needs), raises BudgetExceeded(BaseException). Oracle: subscribe() returns without BudgetExceeded / "
@@ -42,8 +46,9 @@ RULE = (
 )
 ASSUMPTIONS = [
     "single thread, real CurrentThread/Immediate schedulers (no virtual time); partner sources (of, never) are finite or silent",
-    "scheduler configurations listed as open findings in known_findings.json are excluded by construction except for a thin sample (simple shapes + 1/16) and counted",
-    "a per-case process watchdog (60 one-second wake-ups without progress, then os._exit) exists only as a backstop; its trip is a harness error, never a verdict",
+    "scheduler configurations listed as open findings in known_findings.json are excluded by construction except for a thin sample (simple shapes + 1/48) and counted; likewise listed starvation call sites (source|wrapper), sample 1/8",
+    "stacks of two wrappers exclude switch_map behind a wrapper that interleaves several never-ending producers (every trampolined inner is legitimately pre-empted, termination is not determined)",
+    "a per-case process watchdog (240 one-second wake-ups without progress, then stack dump and os._exit) exists only as a backstop; its trip is a harness error, never a verdict",
     "'at source' configurations only exist for factories that accept a scheduler (from_iterable, range, the of(1) inside repeat)",
     "RecursionError (escaping or delivered as on_error) counts as unbounded work just like BudgetExceeded",
 ]
@@ -52,7 +57,7 @@ SLACK = 2  # pulls tolerated after the subscriber's terminal notification
 
 # Scheduler configurations whose failure is one root cause each ("the subscription disposable is not assigned before
 # emission").  When the maintainer lists such a signature as an *open* finding in known_findings.json the region is
-# excluded by construction: only a thin deterministic sample of it (simple shapes + 1/16 of the rest) is still executed,
+# excluded by construction: only a thin deterministic sample of it (simple shapes + 1/48 of the rest) is still executed,
 # the rest is counted under the class "excluded-known-config:<kind>".
 CFG_SIG = {
     "immediate": "no-return|immediate-scheduler",
@@ -104,6 +109,18 @@ WRAPS = [
     "combine_latest_of_first",
     "combine_latest_src_first",
 ]
+# wrappers whose partner / inner observable is itself a never-ending synchronous source (a counted generate(), which
+# yields to the trampoline after every element); the statement still demands that subscribe() returns
+WRAPS_INF = [
+    "merge_inf",
+    "flat_map_inf",
+    "concat_inf_suffix",
+    "switch_map_inf",
+    "amb_inf",
+    "with_latest_from_inf",
+    "combine_latest_inf_first",
+    "combine_latest_src_first_inf",
+]
 EW_SAMPLES = [
     [],
     [["map"]],
@@ -130,15 +147,23 @@ TERMS_QUICK = [
     ["is_empty"],
     ["first_or_default", 2],
     ["all", 2],
+    ["slice", 2],
+    ["buffer_first", 2],
+    ["zip_with_iterable", 2],
 ]
-TERMS_MORE = [["take", 1], ["take_while_incl", 1], ["take_while", 1], ["element_at", 0], ["some_any"], ["take_until_at", 1], ["first_or_default_any"]]
+TERMS_MORE = [
+    ["element_at_or_default", 1],
+    ["find_index", 2],
+    ["getitem", 2],
+    ["skip_first", 2],
+    ["skip_last_take", 2],["take", 1], ["take_while_incl", 1], ["take_while", 1], ["element_at", 0], ["some_any"], ["take_until_at", 1], ["first_or_default_any"]]
 
 
 # ---------------------------------------------------------------------------------------
 # watchdog (backstop only)
 
 _WD = {"thread": None, "gen": 0, "active": False, "case": None}
-_WD_LIMIT = 60  # consecutive 1 s watchdog wake-ups during which one case made no progress
+_WD_LIMIT = 240  # consecutive 1 s watchdog wake-ups during which one case made no progress
 
 
 def _wd_loop():
@@ -151,6 +176,12 @@ def _wd_loop():
             if ticks > _WD_LIMIT:
                 sys.stderr.write(f"HARNESS-ERROR: C14 watchdog: case wedged for >{_WD_LIMIT}s: {_WD['case']}\n")
                 sys.stderr.flush()
+                try:
+                    import faulthandler
+
+                    faulthandler.dump_traceback(file=sys.stderr, all_threads=True)
+                except Exception:  # noqa
+                    pass
                 os._exit(3)
         else:
             seen, ticks = _WD["gen"], 0
@@ -203,6 +234,7 @@ class Budget:
         self.tripped = False
 
 
+_ARRIVED = [0]  # elements that reached the terminator in the current subscription
 _RESETS = []  # reset functions of the harness' own stateful callbacks (cleared per case, run before every subscription)
 
 
@@ -379,10 +411,34 @@ def _need_through(ew, n):
     return n
 
 
-def _wrap(name, s):
+def _wrap(name, s, bud=None):
     of, never = reactivex.of, reactivex.never
     if name is None:
         return s
+
+    def inf():
+        def cond(x):
+            bud.pull()
+            return True
+
+        return reactivex.generate(0, cond, lambda x: x + 1)
+
+    if name == "merge_inf":
+        return s.pipe(ops.merge(inf()))
+    if name == "flat_map_inf":
+        return s.pipe(ops.flat_map(lambda x: inf()))
+    if name == "concat_inf_suffix":
+        return s.pipe(ops.concat(inf()))
+    if name == "switch_map_inf":
+        return s.pipe(ops.switch_map(lambda x: inf()))
+    if name == "amb_inf":
+        return s.pipe(ops.amb(inf()))
+    if name == "with_latest_from_inf":
+        return s.pipe(ops.with_latest_from(inf()))
+    if name == "combine_latest_inf_first":
+        return reactivex.combine_latest(inf(), s)
+    if name == "combine_latest_src_first_inf":
+        return s.pipe(ops.combine_latest(inf()))
     if name == "merge_never":
         return s.pipe(ops.merge(never()))
     if name == "merge_fn":
@@ -468,6 +524,22 @@ def _term(t, s):
     if k == "all":
         p = _nth(a)
         return s.pipe(ops.all(lambda x: not p(x))), a, 1
+    if k == "element_at_or_default":
+        return s.pipe(ops.element_at_or_default(a, -1)), a + 1, 1
+    if k == "find_index":
+        return s.pipe(ops.find_index(_nth(a))), a, 1
+    if k == "slice":
+        return s.pipe(ops.slice(1, a + 1)), a + 1, a
+    if k == "getitem":
+        return s[0:a], a, a
+    if k == "skip_first":
+        return s.pipe(ops.skip(a), ops.first()), a + 1, 1
+    if k == "skip_last_take":
+        return s.pipe(ops.skip_last(2), ops.take(a)), a + 2, a
+    if k == "buffer_first":
+        return s.pipe(ops.buffer_with_count(a), ops.first()), a, 1
+    if k == "zip_with_iterable":
+        return s.pipe(ops.zip_with_iterable(list(range(a)))), a + 1, a
     raise HarnessError(f"term {t}")
 
 
@@ -476,8 +548,12 @@ def _term_need(t):
     a = t[1] if len(t) > 1 else None
     if k in ("take", "first_pred", "take_while", "take_while_incl", "take_until_at", "find", "some", "contains", "first_or_default", "all"):
         return a
-    if k == "element_at":
+    if k in ("find_index", "getitem", "buffer_first"):
+        return a
+    if k in ("element_at", "element_at_or_default", "slice", "skip_first", "zip_with_iterable"):
         return a + 1
+    if k == "skip_last_take":
+        return a + 2
     if k == "take_until_now":
         return 0
     return 1
@@ -495,7 +571,18 @@ def _patched_build(case, bud):
         o = _source(case["src"], bud, src_s)
         for op in case["ew"]:
             o = o.pipe(_ew(op))
-        o = _wrap(case["wrap"], o)
+        o = _wrap(case["wrap"], o, bud)
+        o = _wrap(case.get("wrap2"), o, bud)
+        # tap in front of the terminator: how many elements actually arrived there (starved vs. terminator at fault)
+        del _ARRIVED[:]
+        _ARRIVED.append(0)
+        arrived = _ARRIVED
+
+        def tap(x):
+            arrived[0] += 1
+
+        _RESETS.append(lambda: arrived.__setitem__(0, 0))
+        o = o.pipe(ops.do_action(tap))
         o, need, emits = _term(case["term"], o)
         if need != _term_need(case["term"]):
             raise HarnessError(f"need mismatch for {case['term']}")
@@ -521,7 +608,7 @@ def _run(case):
         _wd_leave()
 
 
-def _run_inner(case):
+def _run_inner(case, force=False):
     import reactivex.observable.range  # noqa: F401  (make sure the patched modules are loaded)
     import reactivex.operators._repeat  # noqa: F401
 
@@ -530,9 +617,15 @@ def _run_inner(case):
         raise HarnessError(f"configuration {cfg} does not exist for source {src}")
     n = _term_need(term)
     kind = cfg.split("@")[0]
-    if CFG_SIG.get(kind) in _OPEN and (case["ew"] or case["wrap"] is not None):
-        if int(case_hash("c14", case), 16) % 16 != 0:
+    if not force and CFG_SIG.get(kind) in _OPEN and (case["ew"] or case["wrap"] is not None):
+        if int(case_hash("c14", case), 16) % 48 != 0:
             return OK(False, [f"excluded-known-config:{kind}"])
+    if not force and n >= 1 and (case["ew"] or case.get("wrap2")):
+        # call sites of a starvation that is listed as an open finding: excluded by construction in the same way
+        # (simple single-wrapper shapes and a 1/8 sample still run, the rest is counted)
+        listed = [w for w in (case["wrap"], case.get("wrap2")) if w and f"no-return:starved|{src}|{w}" in _OPEN]
+        if listed and int(case_hash("c14", case), 16) % 8 != 0:
+            return OK(False, [f"excluded-known-callsite:{src}|{listed[0]}"])
     if case["wrap"] == "concat_prefix":
         n_src = max(0, n - 1)
     else:
@@ -544,6 +637,11 @@ def _run_inner(case):
     resets = list(_RESETS)
     resub = int(case.get("resub") or 0)
     cls = [f"src={src}", f"cfg={cfg}", f"wrap={case['wrap']}", f"term={term[0]}", f"ew={len(case['ew'])}", f"resub={resub}"]
+    if case.get("wrap2"):
+        cls.append(f"wrap2={case['wrap2']}")
+        cls.append("stacked-wrappers")
+    if case["wrap"] in WRAPS_INF or case.get("wrap2") in WRAPS_INF:
+        cls.append("infinite-partner")
     for k in range(1 + resub):
         # the SAME pipeline object is subscribed again after the previous subscription returned; every subscription
         # gets a fresh pull counter / budget and fresh harness predicates, and must satisfy the same oracle
@@ -557,6 +655,24 @@ def _run_inner(case):
 
 
 _ORD = {1: "2nd", 2: "3rd"}
+
+
+def _starving_wrapper(case):
+    """Call site of a starvation. One wrapper: its name. Two stacked wrappers: found by ablation - the wrapper that
+    starves on its own (so a listed single-wrapper call site is recognised inside a stack); 'w1+w2' if only the
+    combination starves."""
+    w1, w2 = case["wrap"], case.get("wrap2")
+    if not w2:
+        return w1 or "none"
+    alone = []
+    for w in (w1, w2):
+        sub = dict(case, wrap=w, wrap2=None, resub=0)
+        saved = list(_ARRIVED)
+        r = _run_inner(sub, force=True)
+        _ARRIVED[:] = saved
+        if not r.ok and r.sig.startswith("no-return:starved|"):
+            alone.append(w)
+    return alone[0] if alone else f"{w1}+{w2}"
 
 
 def _one_subscription(case, o, sub_s, explicit, emits, bud, need, n, cls, k):
@@ -622,17 +738,23 @@ def _one_subscription(case, o, sub_s, explicit, emits, bud, need, n, cls, k):
     cls.append("symptom=" + symptom)
     detail = (
         f"{symptom} (subscription #{k + 1} of the same pipeline object): pulls={bud.n} budget={bud.limit} need={need} "
-        f"outputs={n_out} (expected {emits}) terminal={termev} pulls_at_return={pulls_ret} case={case}"
+        f"outputs={n_out} (expected {emits}) reached-terminator={_ARRIVED[0]} (needs {n}) terminal={termev} "
+        f"pulls_at_return={pulls_ret} case={case}"
     )
     if runaway:
         if cfg.startswith("immediate"):
             sig = "no-return|immediate-scheduler"
         elif cfg.startswith("ct_fresh"):
             sig = "no-return|fresh-current-thread-scheduler"
-        elif termev is None and n_out == 0 and n >= 1:
+        elif termev is None and n >= 1 and _ARRIVED[0] >= n:
+            # every element the terminator needs reached it, yet it never terminated
+            sig = f"no-return:terminator-did-not-complete|{term[0]}"
+        elif termev is None and n >= 1:
+            # the budget ran out before the subscriber got its terminal and fewer elements than needed reached the
+            # terminator: it was starved (with a terminal delivered it is the producer that was not cancelled)
             # call-site specific: the wrapper through which the producer starves is part of the root cause, so a listed
             # starvation (e.g. from_iterable under flat_map_of) cannot mask a new one (e.g. under with_latest_from_of)
-            sig = f"no-return:starved|{src}|{case['wrap'] or 'none'}"
+            sig = f"no-return:starved|{src}|{_starving_wrapper(case)}"
         else:
             sig = f"no-return:not-cancelled|{src}"
     else:
@@ -655,7 +777,7 @@ def _product(tier):
     terms = TERMS_QUICK if tier == "quick" else TERMS_QUICK + TERMS_MORE
     idx = 0
     for src in SOURCES:
-        for wrap in WRAPS:
+        for wrap in WRAPS + WRAPS_INF:
             for term in terms:
                 for cfg in _configs_for(src):
                     ews = [EW_SAMPLES[idx % len(EW_SAMPLES)]] if tier == "quick" else [EW_SAMPLES[idx % len(EW_SAMPLES)], EW_SAMPLES[(idx + 4) % len(EW_SAMPLES)]]
@@ -665,6 +787,36 @@ def _product(tier):
                             c["resub"] = 2
                         yield c
                     idx += 1
+
+
+# switch_map legitimately discards an inner observable that has not emitted when the next outer element arrives.  Behind a
+# wrapper that interleaves two (or ever more) never-ending producers every trampolined inner is pre-empted before it can
+# emit, so the terminator legitimately never receives an element: the statement does not determine termination there.
+MULTI_PRODUCER = {"merge_inf", "flat_map_inf", "combine_latest_inf_first", "combine_latest_src_first_inf"}
+
+
+def _stack_ok(w1, w2):
+    return not (w2 in ("switch_map_of", "switch_map_inf") and w1 in MULTI_PRODUCER)
+
+
+def _stacked(tier):
+    """Two wrappers applied one after the other (all ordered pairs), default / singleton scheduler."""
+    ws = [w for w in WRAPS if w is not None] + WRAPS_INF
+    terms = [["take", 3]] if tier == "quick" else [["take", 3], ["first"], ["take_while", 3]]
+    cfgs = ["default"] if tier == "quick" else ["default", "ct_singleton@subscribe"]
+    idx = 0
+    for src in SOURCES:
+        for w1 in ws:
+            for w2 in ws:
+                if not _stack_ok(w1, w2):
+                    continue
+                for term in terms:
+                    for cfg in cfgs:
+                        c = {"src": src, "ew": EW_SAMPLES[idx % len(EW_SAMPLES)], "wrap": w1, "wrap2": w2, "term": term, "cfg": cfg}
+                        if idx % 5 == 0:
+                            c["resub"] = 1
+                        yield c
+                        idx += 1
 
 
 _ew_op = st.one_of(
@@ -689,6 +841,14 @@ _TERM_PARAM = {
     "contains": (1, 9),
     "first_or_default": (1, 9),
     "all": (1, 9),
+    "element_at_or_default": (0, 9),
+    "find_index": (1, 9),
+    "slice": (1, 9),
+    "getitem": (1, 9),
+    "skip_first": (0, 9),
+    "skip_last_take": (1, 9),
+    "buffer_first": (1, 9),
+    "zip_with_iterable": (1, 9),
 }
 
 
@@ -706,10 +866,15 @@ def _deep(draw):
     src = draw(st.sampled_from(SOURCES))
     cfgs = _configs_for(src)
     weighted = [c for c in cfgs for _ in range(3 if c == "default" else (2 if c.startswith("ct_singleton") else 1))]
+    w1 = draw(st.sampled_from(WRAPS + WRAPS_INF))
+    w2 = draw(st.sampled_from([None, None] + WRAPS[1:] + WRAPS_INF))
+    if w1 is None or not _stack_ok(w1, w2):
+        w2 = None
     return {
         "src": src,
         "ew": draw(st.lists(_ew_op, min_size=0, max_size=3)),
-        "wrap": draw(st.sampled_from(WRAPS)),
+        "wrap": w1,
+        "wrap2": w2,
         "term": draw(_term_s()),
         "cfg": draw(st.sampled_from(weighted)),
         "resub": draw(st.sampled_from([0, 0, 0, 0, 0, 0, 1, 2])),
@@ -718,6 +883,7 @@ def _deep(draw):
 
 def checks(tier):
     return [
-        Check("product", _run, cases=_product, shards={"quick": 4, "thorough": 16}, exhaustive=True),
-        Check("deep", _run, strategy=_deep(), examples={"quick": 800, "thorough": 16 * 20000}, shards={"quick": 4, "thorough": 16}),
+        Check("product", _run, cases=_product, shards={"quick": 8, "thorough": 16}, exhaustive=True),
+        Check("stacked", _run, cases=_stacked, shards={"quick": 8, "thorough": 16}, exhaustive=True),
+        Check("deep", _run, strategy=_deep(), examples={"quick": 800, "thorough": 16 * 20000}, shards={"quick": 8, "thorough": 16}),
     ]
